@@ -872,7 +872,7 @@ func (x *Explorer) typed(st *State, s *Sym) Val {
 	case isDecType(s.T):
 		return &DecV{L: linAtom("opaque:" + s.N)}
 	case isSdkIntType(s.T):
-		return &IntV{L: linAtom("opaque:" + s.N)}
+		return &IntV{L: linAtom("intfield(" + s.N + ")")}
 	}
 	if b, ok := s.T.Underlying().(*types.Basic); ok && b.Info()&types.IsBoolean != 0 {
 		return &BoolV{F: "Bool(" + s.N + ")"}
